@@ -60,6 +60,12 @@ let () =
          | POk ps -> print_endline ("ok " ^ pairs_s ps)
          | PFail -> print_endline "err"
          | PFuel -> print_endline "fuel")
+    | ["pegpairs"; f] ->
+        (match peg_pairs (str_of_field f) with
+         | GOk ps -> print_endline ("ok " ^ pairs_s ps)
+         | GFail -> print_endline "err"
+         | GFuel -> print_endline "fuel"
+         | GBad -> print_endline "?bad-tree")
     | ["calc"; f] -> print_endline (result_s (run_calculator (str_of_field f)))
     | ["try"; f] ->
         (match try_run_calculator (str_of_field f) with
